@@ -603,6 +603,11 @@ func (fr *frame) execInstr(ins ssa.Instruction, st *State, reach string, xedges 
 		fr.typeAssert(t, st, reach)
 	case *ssa.Range:
 		fr.vals[t] = Val{T: fr.term(t.X)}
+		if mt, ok := t.X.Type().Underlying().(*types.Map); ok {
+			// ghost set of the keys this iteration has produced so far
+			h, ks := fr.visitedHeap(t, mt)
+			ft.setHeap(st, h, fmt.Sprintf("((as const (Array %s Bool)) false)", ks))
+		}
 	case *ssa.Next:
 		fr.next(t, st, reach)
 	case *ssa.Call:
@@ -1236,6 +1241,16 @@ func (fr *frame) next(t *ssa.Next, st *State, reach string) {
 	k := ft.fresh("next_k", ks)
 	v := ft.define("next_v", vs, sel(sel(ft.heapTerm(st, val), x.S), k))
 	ft.assume(ok, and(not(eq(x.S, "null")), sel(sel(ft.heapTerm(st, dom), x.S), k)))
+	// every key is produced at most once; if the loop body neither inserts into
+	// nor deletes from the ranged map, the iteration ends only after all keys
+	vh, _ := fr.visitedHeap(rng, mt)
+	vis := ft.heapTerm(st, vh)
+	ft.assume(ok, not(sel(vis, k)))
+	if fr.rangeKeysStable(rng, t) {
+		d := sel(ft.heapTerm(st, dom), x.S)
+		ft.assume(not(ok), implies(not(eq(x.S, "null")), fmt.Sprintf("(forall ((k %s)) (! (=> (select %s k) (select %s k)) :pattern ((select %s k))))", ks, d, vis, d)))
+	}
+	ft.setHeap(st, vh, ite(ok, store(vis, k, "true"), vis))
 	ft.assumeAllocated(st, ok, Term{v, vs})
 	ft.assumeAllocated(st, ok, Term{k, ks})
 	fr.vals[t] = Val{Tuple: []Val{{T: Term{ok, SBool}}, {T: Term{k, ks}}, {T: Term{v, vs}}}}
@@ -1434,4 +1449,91 @@ func (e *Engine) elemNonNil(lv *LValue, t types.Type) bool {
 		return false
 	}
 	return !e.nilableElems[typeName(t)]
+}
+
+// visitedHeap: pseudo heap holding the set of keys a map iteration has produced.
+func (fr *frame) visitedHeap(rng *ssa.Range, mt *types.Map) (string, Sort) {
+	u := fr.ft.e.u
+	_, _, ks, _ := u.mapHeaps(mt)
+	name := fmt.Sprintf("V$%s$%d", sanitize(rng.Parent().Name()), rng.Pos())
+	u.heap(name, arraySort(ks, SBool))
+	return name, ks
+}
+
+// rangeKeysStable: inside the loop of this map iteration the ranged map is
+// written only at the current iteration key (values change, the key set does not).
+func (fr *frame) rangeKeysStable(rng *ssa.Range, next *ssa.Next) bool {
+	keys := map[ssa.Value]bool{}
+	for _, ref := range *next.Referrers() {
+		if ex, ok := ref.(*ssa.Extract); ok && ex.Index == 1 {
+			keys[ex] = true
+		}
+	}
+	if fr.loops == nil {
+		return false
+	}
+	lp := fr.loops.headers[next.Block()]
+	if lp == nil {
+		return false
+	}
+	for b := range lp.body {
+		for _, ins := range b.Instrs {
+			switch x := ins.(type) {
+			case *ssa.MapUpdate:
+				same := sameLoadedValue(x.Map, rng.X)
+				if same && !keys[x.Key] {
+					return false
+				}
+				if !same && types.Identical(x.Map.Type(), rng.X.Type()) {
+					return false // possible alias
+				}
+			case ssa.CallInstruction:
+				c := x.Common()
+				if bi, ok := c.Value.(*ssa.Builtin); ok && (bi.Name() == "delete" || bi.Name() == "clear") && len(c.Args) > 0 && types.Identical(c.Args[0].Type(), rng.X.Type()) {
+					return false
+				}
+				if _, isB := c.Value.(*ssa.Builtin); !isB {
+					// a callee might change the key set of a map of this type
+					d, _, _, _ := fr.ft.e.u.mapHeaps(rng.X.Type().Underlying().(*types.Map))
+					callees := fr.ft.e.possibleCallees(c)
+					if len(callees) == 0 {
+						return false
+					}
+					for _, g := range callees {
+						if l, ok := fr.ft.e.modSetLevels(g)[d]; ok && l > 0 {
+							return false
+						}
+					}
+				}
+			}
+		}
+	}
+	return true
+}
+
+// sameLoadedValue: a and b are the same SSA value, or loads of the same
+// captured variable / local cell that the function never stores to.
+func sameLoadedValue(a, b ssa.Value) bool {
+	if a == b {
+		return true
+	}
+	la, ok1 := a.(*ssa.UnOp)
+	lb, ok2 := b.(*ssa.UnOp)
+	if !ok1 || !ok2 || la.Op != token.MUL || lb.Op != token.MUL || la.X != lb.X {
+		return false
+	}
+	switch la.X.(type) {
+	case *ssa.FreeVar, *ssa.Alloc:
+	default:
+		return false
+	}
+	fn := la.Parent()
+	for _, blk := range fn.Blocks {
+		for _, ins := range blk.Instrs {
+			if st, ok := ins.(*ssa.Store); ok && st.Addr == la.X {
+				return false
+			}
+		}
+	}
+	return true
 }
